@@ -17,8 +17,17 @@ the implementation's own output:
  * structural checks: rows/values preserved (tracked by a payload column),
    caller's table untouched, helper column dropped, rows ordered by frame, the
    in-range part of the result equals an independent tp.link of the range.
+
+Tie (route T).  tools/py2coq_partial.py re-translates the CURRENT text of
+trackpy/linking/partial.py (reconnect_traj_patch, link_partial) into
+coq/Gen/partial.v before the proofs are built; Proofs/Partial2.v proves the
+generated functions equal to the hand-written model and re-proves the C13
+theorems for them (Properties/C13.v, C13_gen_*).  A source that leaves the
+translatable subset, or whose translation no longer satisfies those proofs, is
+reported through chk.proof_broken; the correspondence run below still takes
+place, so a concrete failing input is searched for as well.
 """
-import json, itertools
+import json, itertools, os, sys, hashlib
 import numpy as np
 import common
 from common import cZ, cnat, clist, cbool
@@ -36,6 +45,73 @@ CODES = {0: 'ok', 1: 'implementation returned for an empty table', 2: 'output ro
          10: 'grouping of rows differs from the model of link_partial (labels joined/separated wrongly)',
          11: 'verified monitor rejects the labels (specification violated)',
          20: 'hypotheses not met (nothing claimed)'}
+
+
+TRANSLATOR = os.path.join(common.VERIF, 'tools', 'py2coq_partial.py')
+GEN = os.path.join(common.COQ, 'Gen', 'partial.v')
+
+
+# ----------------------------------------------------------------------------
+# translator / build
+# ----------------------------------------------------------------------------
+def regenerate(chk):
+    """re-run the translator on the current source; returns (ok, text-or-log)"""
+    rc, out = common.sh([sys.executable, TRANSLATOR, '--repo', common.REPO, '--stdout'], timeout=60)
+    if rc != 0:
+        return False, out
+    with common.Lock(os.path.join(common.COQ, '.build.lock')):
+        old = open(GEN).read() if os.path.exists(GEN) else None
+        if old != out:
+            os.makedirs(os.path.dirname(GEN), exist_ok=True)
+            tmp = GEN + '.tmp%d' % os.getpid()
+            with open(tmp, 'w') as f:
+                f.write(out)
+            os.replace(tmp, GEN)
+            chk.tally('Gen/partial.v rewritten (source differs from last run)')
+        else:
+            chk.tally('Gen/partial.v unchanged')
+    return True, out
+
+
+def ensure_model(chk):
+    """Model/PartialCheck.vo (hand-written model + monitor, executable) is needed by the correspondence
+    run even when the translation or a proof about the generated functions is broken"""
+    def fresh(v):
+        vo = os.path.join(common.COQ, v + 'o')
+        return os.path.exists(vo) and os.path.getmtime(vo) >= os.path.getmtime(os.path.join(common.COQ, v))
+    files = ('Model/Partial.v', 'Model/PartialCheck.v')
+    if all(fresh(v) for v in files):
+        return True
+    with common.Lock(os.path.join(common.COQ, '.build.lock')):
+        for v in files:
+            rc, out = common.sh('timeout 300 coqc -Q . TP %s' % v, timeout=330, cwd=common.COQ)
+            if rc != 0:
+                chk.proof_broken(v, out)
+                return False
+    return True
+
+
+def build(chk):
+    """translator -> cone of Properties/C13.v; returns True when the executable model is available"""
+    ok, text = regenerate(chk)
+    if not ok:
+        chk.proof_broken('translation tools/py2coq_partial.py (trackpy/linking/partial.py left the translatable subset)', text)
+        chk.build = dict(obligations=0, discharged=0, assumptions=[], files=[], theorems=[])
+    else:
+        for attempt in range(3):
+            b = chk.coq()
+            if open(GEN).read() == text:
+                break
+            # another run (different TRACKPY_REPO) rewrote the generated file in between: redo
+            chk.violations = [v for v in chk.violations if not v[0].startswith('proof:')]
+            regenerate(chk)
+        chk.notes.append('Gen/partial.v sha1 %s generated from %s' % (hashlib.sha1(text.encode()).hexdigest()[:12], common.REPO))
+        if not b['ok']:
+            # say which statement about the generated functions no longer checks
+            with common.Lock(os.path.join(common.COQ, '.build.lock')):
+                rc, out = common.sh('timeout 600 make Proofs/Partial2.vo 2>&1 | tail -25', timeout=630, cwd=common.COQ)
+            chk.notes.append('make Proofs/Partial2.vo (generated functions = model): ' + out[-2500:])
+    return ensure_model(chk)
 
 
 # ----------------------------------------------------------------------------
@@ -580,7 +656,8 @@ def run_cases(chk, cases, tag):
 
 def run(chk):
     common.quiet_trackpy()
-    chk.coq()
+    if not build(chk):
+        return          # not even the hand-written model builds: reported, nothing can be executed
     rng = chk.rng
     keep = run_cases(chk, corpus(), 'corpus')
     n = 600 if chk.tier == 'quick' else 6000
@@ -602,6 +679,9 @@ def run(chk):
         "a deterministic 1/%d sample of the exhaustive universe (<= %d frames x <= 2 rows, every valid old labelling, every range, 3 geometries). "
         "non-trivial = partial range (reconnect executed) on a table with >= 4 rows; distinct by content" % (stride, 3 if chk.tier == 'quick' else 4))
     chk.assumptions += [
+        "Gen/partial.v is produced from the current trackpy/linking/partial.py by tools/py2coq_partial.py (trusted, fail-closed; subset, conventions and the list of pandas / itertools "
+        "primitives in its docstring and in Model/PyPartial.v); the C13_gen_* theorems are about that text; the iteration order of the Python set `remaining` is a parameter and the "
+        "theorems hold for every order; dropped as not touching labels: guess_pos_columns / validate_tuple / the memory warning / the astype(np.integer) coercion",
         "the in-range linking (link_iter, C01/C02) is taken as an arbitrary labelling that is unique per frame; its ids are the ones recorded from the run",
         "pandas: sort_values gives some frame-ordered permutation (stability not relied on), boolean-mask assignment in row order, Series.replace(dict) simultaneous",
         "old labels are int64 >= 0 (float/NaN label columns are outside the model); frames are integers (astype(np.integer) on float frames raises under numpy 2 and is not exercised)",
@@ -611,7 +691,8 @@ def run(chk):
 
 def replay(chk, path):
     common.quiet_trackpy()
-    chk.coq()
+    if not build(chk):
+        return
     r = json.load(open(path))['replay']
     if r.get('kind') != 'case':
         print('replay: nothing executable in this replay file (proof/correspondence breakage): see its log field')
